@@ -223,6 +223,71 @@ func runC17(c *core.Ctx) {
 			}
 		}
 	})
+	// (2b'') texts by character class: every octet length 0…255 filled entirely, half, or with a
+	// few characters of one class (C1 controls — two octets that a cleaner may turn into one —,
+	// ASCII controls, lone continuation and invalid lead octets, overlong forms, surrogates,
+	// four-octet characters, combining marks, line separators, BOM, U+FFFD, format metacharacters,
+	// bidi controls), as BYE reason and SDES texts, built and decoded: a formatter that cleans,
+	// quotes or abbreviates a text computes lengths on one form and slices another (after C17n)
+	textClasses := [][]string{
+		{"\u0080", "\u0085", "\u008f", "\u0090", "\u009f"},
+		{"\x00", "\x01", "\x07", "\x08", "\x1b", "\x1f", "\x7f"},
+		{"\n", "\r", "\t", "\r\n"},
+		{"\x80", "\xbf", "\x9f", "\xa0"},
+		{"\xc0", "\xc1", "\xf5", "\xfe", "\xff", "\xc2", "\xe2\x82", "\xf0\x9f\x98"},
+		{"\xc0\x80", "\xe0\x80\x80", "\xf0\x80\x80\x80", "\xc1\xbf"},
+		{"\xed\xa0\x80", "\xed\xbf\xbf"},
+		{"\U0001F600", "\U0010FFFF", "\U00010000"},
+		{"\u0301", "\u0300", "\u20dd", "e\u0301"},
+		{"\u2028", "\u2029", "\u00a0", "\u200b", "\u3000"},
+		{"\ufeff", "\ufffd", "\ufffe", "\uffff"},
+		{"%", "%s", "%!", "%d", "\\", "\"", "'", "`", "{", "}", "%%"},
+		{"\u202e", "\u200f", "\u2066", "\u061c"},
+		{"\u4e2d", "\uff21", "\u1100"},
+	}
+	c.Exhaustive("text classes x octet lengths 0..255 x 3 densities", uint64(len(textClasses))*256*3)
+	c.Section("text-classes", uint64(len(textClasses))*256*3, func(cs *core.Case) {
+		r := cs.R
+		class := textClasses[cs.Idx%uint64(len(textClasses))]
+		n := int(cs.Idx / uint64(len(textClasses)) % 256)
+		density := int(cs.Idx / uint64(len(textClasses)) / 256)
+		few := 1 + r.Intn(4)
+		b := make([]byte, 0, n)
+		for len(b) < n {
+			ch := class[r.Intn(len(class))]
+			use := false
+			switch density {
+			case 0:
+				use = true
+			case 1:
+				use = r.Bool()
+			default:
+				use = few > 0 && r.Chance(1+few, 1+n-len(b))
+			}
+			if use && len(b)+len(ch) <= n {
+				b = append(b, ch...)
+				few--
+			} else {
+				b = append(b, byte('a'+r.Intn(26)))
+			}
+		}
+		text := string(b)
+		bye := &rtcp.Goodbye{Sources: []uint32{r.U32()}, Reason: text}
+		sdes := &rtcp.SourceDescription{Chunks: []rtcp.SourceDescriptionChunk{{Source: r.U32(), Items: []rtcp.SourceDescriptionItem{
+			{Type: rtcp.SDESCNAME, Text: text}, {Type: rtcp.SDESType(2 + r.Intn(7)), Text: text}}}}}
+		cs.Distinct(core.DigestStr("text-class", text))
+		cs.Count(fmt.Sprintf("text-classes/class-%d", cs.Idx%uint64(len(textClasses))))
+		for _, p := range []rtcp.Packet{bye, sdes} {
+			c17Format(cs, p, mon.TypeName(p)+fmt.Sprintf(" (text of %d octets)", n))
+			if enc, err := p.Marshal(); err == nil {
+				if ps, uerr := rtcp.Unmarshal(enc); uerr == nil {
+					for _, d := range ps {
+						c17Format(cs, d, mon.TypeName(d)+fmt.Sprintf(" (decoded, text of %d octets)", n))
+					}
+				}
+			}
+		}
+	})
 	// (2c) transport-cc feedback whose chunks describe about 2^16 packets (65535, exactly 65536, a
 	// little more, twice that), hand-built and decoded: a formatter that summarises the chunks
 	// meets every total a 16-bit conversion turns into 0 or 1
